@@ -35,7 +35,7 @@ THEOREMS = [
     "c12_race_exactly_once", "c12_event_first_any_post", "c12_id_reuse_after_answer", "c12_instances_independent", "c12_options_irrelevant", "c12_race_count", "c12_request_leaves_idle", "c12_serial_requests",
     "c12_stream_chunk_independent", "c12_delivery_chunk_independent", "c12_stream_delivers_rendered",
     "c12_stream_delivers_conformant", "c12_server_messages_once_in_order", "c12_cleanup_closes_all",
-    "c12_stream_end_after_announcement", "c12_stream_end_requests", "c12_post_target_function", "c12_endpoint_same_origin",
+    "c12_stream_end_after_announcement", "c12_stream_end_requests", "c12_post_target_function", "c12_absolute_endpoint_verbatim", "c12_endpoint_same_origin",
 ]
 # not stated by the property text: Props/C12Supp.lean (INFO only, never a verdict)
 SUPP_THEOREMS = [
@@ -58,6 +58,10 @@ RULE = (
     "exception} x {no answer on the event stream, the answer before / at the same instant as / after the POST completion, whole or cut} x "
     "three tie orders, each followed by two more requests on the same session (a stalled reader or sender shows there; the exit is late "
     "enough for every synthesised timeout, so a hang is a missing terminal, not a machinery timeout); "
+    "round 6: the scripted HTTP transport enforces the client's read timeout like a real one (a POST the server accepts and never answers, mode "
+    "posthang, in every mode list); absolute announcements on another host / port / scheme / host spelling (localhost vs 127.0.0.1) with the oracle "
+    "that every POST goes to the announced absolute URL; ids keyed by value AND JSON type, a message bearing the twin id (7 vs \"7\") arriving while "
+    "the request is pending; "
     "hardening sweep 3 (suite sizes-collisions-environment): one event of 70 KB / 300 KB (thorough: 1 MB) in chunks of <= 16 KiB and <= 64 KiB as a server "
     "message and as the answer of a request (stream before / after the 202, POST reply), small messages around it, the 1100th message of a session; "
     "server REQUESTS numbered like earlier, already answered client requests (same and twin JSON type) after every answer mode; broken / ASCII-only "
@@ -234,6 +238,12 @@ def oracle_requests(case, o, upto=None):
     """exactly one terminal message per request; server messages once, in order"""
     if o.get("deadlock") is not None:
         return oracle_release(case, o)
+    # the connection that was yielded is one on which requests reach the ANNOUNCED endpoint
+    want_url = G.announced_url(case)
+    if want_url is not None and (case.get("conn") or {"k": "ok"})["k"] == "ok":
+        for p in o.get("posts", []):
+            if _norm_url(p[1]) != _norm_url(want_url):
+                return ("endpoint/posts-elsewhere", f"the server announced {want_url!r} but a request was POSTed to {p[1]!r}", {"post_url": want_url})
     terms, srv = split_delivered(case, o)
     reqs = G.real_reqs(case)
     for r in reqs:
@@ -629,7 +639,8 @@ class Sizes(Base):
 
     def cases(self, ctx, budget):
         rng = ctx.sub_rng("c12-h3", budget)
-        return G.decorate(G.size_cases(budget, rng) + G.collision_cases(budget, rng) + G.environment_cases(budget, rng), self.name)
+        return G.decorate(G.size_cases(budget, rng) + G.collision_cases(budget, rng) + G.environment_cases(budget, rng)
+                          + G.twin_id_cases(budget, rng), self.name)
 
     def oracle(self, case, o):
         if o.get("harness_errors"):
